@@ -721,6 +721,17 @@ class Engine:
             if ent is not None:
                 return self.module_const(ent[0], ent[1])
             raise Unsupported('attribute %s of record %s' % (attr, v.cls))
+        if hasattr(self, 'SuperVal') and isinstance(v, self.SuperVal):
+            if v.base is None:
+                if attr == '__init__':
+                    return Fn(lambda eng, s, a, k, n: [(s, None)], 'object.__init__')
+                raise Unsupported('super() of a class without known base')
+            ent = self.find_method(v.base, attr)
+            if ent is None or ent[2] is None:
+                if attr == '__init__':
+                    return Fn(lambda eng, s, a, k, n: [(s, None)], 'object.__init__')
+                raise Unsupported('super().%s' % attr)
+            return UserFn(ent[0], ent[1], ent[2], v.selfv)
         if isinstance(v, ModuleVal):
             dotted = v.dotted + '.' + attr
             rp = source.module_relpath(v.dotted)
@@ -808,6 +819,11 @@ class Engine:
             if st.dead:
                 return []
             v = v.val
+        if v is None:
+            if self.pure:
+                return [(st, z3.Int(uid('undef')))]      # unspecified: guarded by the surrounding implication
+            self.throw(st, 'TypeError', node)
+            return []
         if is_strlike(v):
             if isinstance(v, str) and is_conc_int(i):
                 if -len(v) <= i < len(v):
@@ -827,7 +843,11 @@ class Engine:
                 self.throw(st, 'IndexError', node)
                 return []
             vv = as_view(v)
-            j, ok = norm_index(i, vv.length)
+            if self.pure and not is_conc_int(simp(i)):
+                # spec mode: symbolic indices are taken as they are (no negative-index normalisation)
+                j, ok = simp(i), True
+            else:
+                j, ok = norm_index(i, vv.length)
             st = self.fork_exc(st, ok, 'IndexError', node)
             if st.dead:
                 return []
@@ -1011,7 +1031,12 @@ class Engine:
                     else:
                         args.append(v)
                 kw = {k: v for (k, _), v in zip(kwnodes, vals[len(argnodes):])}
-                out += self.call(fv, args, kw, s2, node)
+                for s3, rv in self.call(fv, args, kw, s2, node):
+                    if s3.wb:
+                        for s4 in self.flush_writebacks(s3, node):
+                            out.append((s4, rv))
+                    else:
+                        out.append((s3, rv))
         return out
 
     def ev_mutating(self, node, st):
@@ -1027,6 +1052,10 @@ class Engine:
             for s2, args in self.ev_seq(list(node.args), s):
                 if node.func.attr == 'extend' and not isinstance(args[0], (View, bytes, Tup)):
                     args = [self.to_iter_view(args[0], s2, node)]
+                if node.func.attr == 'append' and isinstance(args[0], Ref):
+                    o = s2.heap[args[0].oid]
+                    args = [Rec(o.cls, o.fields)]
+                    self.assumptions_used.add('objects appended to a list are stored by value (no aliasing of list elements)')
                 nv, rv = self.builtins['mut:' + node.func.attr](recv, args)
                 for s3 in self.assign(node.func.value, nv, s2, node):
                     out.append((s3, rv))
@@ -1185,10 +1214,14 @@ class Engine:
             return self.inline_call(fn, args, kw, st, node, merge=True)
         key = (fn.mod.relpath, fn.qual)
         c = self.reg.contracts.get(key)
+        for alt in self.reg.alternatives.get(key, []):
+            if alt.applies(self, fn, args, st):
+                c = alt
+                break
         cur = self.frame
-        if c is not None and not c.inline and not (self.pure and False):
+        if c is not None and not c.inline and not c.inline_at_calls:
             return self.call_contract(c, fn, args, kw, st, node)
-        if c is not None and c.inline or key in getattr(self.reg, 'inline_keys', ()):
+        if c is not None and (c.inline or c.inline_at_calls) or key in getattr(self.reg, 'inline_keys', ()):
             return self.inline_call(fn, args, kw, st, node, merge=bool(self.pure))
         if fn.closure is not None:
             return self.inline_call(fn, args, kw, st, node, merge=bool(self.pure))
@@ -1332,15 +1365,24 @@ class Engine:
         post.env.update(extra)
         post.heap = st.heap
         post.pc = st.pc
+        if c.ghost_post:
+            newg = {g: self.materialise(self.spec(e, post, None, oldsnap), st, g) for g, e in c.ghost_post.items()}
+            post.env.update(newg)
         for e in c.ensures:
             st.assume(self.spec_bool(e, post, None, oldsnap))
             if st.dead:
                 return []
+        if c.ghost_post:
+            for g, v in newg.items():
+                st.env[g] = v
         return [(st, res)]
 
     def havoc_modifies(self, c, env, st):
         for path in c.modifies:
-            self.havoc_path(path, env, st)
+            if isinstance(path, tuple):
+                self.havoc_path(path[0], env, st, {path[0]: path[1]})
+            else:
+                self.havoc_path(path, env, st)
 
     def havoc_path(self, path, env, st, kinds=None):
         """path like 'self.field' or 'self.a.b': havoc the last field of the object denoted by the prefix."""
@@ -1470,17 +1512,7 @@ class Engine:
             outs = m(stmt, st)
         finally:
             self.sinks.pop()
-        res = []
-        for s, oc in outs:
-            if s.wb and oc[0] in ('normal', 'return'):
-                self.sinks.append(sink)
-                try:
-                    for s2 in self.flush_writebacks(s, stmt):
-                        res.append((s2, oc))
-                finally:
-                    self.sinks.pop()
-            else:
-                res.append((s, oc))
+        res = list(outs)
         for s, e, line in sink:
             if not s.dead:
                 s.wb = []
@@ -1740,6 +1772,8 @@ class Engine:
                             c = self.reg.contracts.get((ent[0].relpath, ent[1]))
                             if c is not None:
                                 for p in c.modifies:
+                                    if isinstance(p, tuple):
+                                        p = p[0]
                                     if p.startswith('self.'):
                                         paths.add(recv + p[4:])
         return paths
@@ -1747,7 +1781,8 @@ class Engine:
     def havoc_for_loop(self, body, st, sp, has_yield):
         names, attrs = self.assigned_in(body)
         attrs |= self.callee_modifies(body, st)
-        attrs |= set(sp.havoc_extra)
+        attrs |= set(x for x in sp.havoc_extra if '.' in x)
+        names |= set(x for x in sp.havoc_extra if '.' not in x)
         for n in sorted(names):
             if n in st.env:
                 cur = st.env[n]
@@ -1924,6 +1959,8 @@ class Engine:
             for a_ in c.assume:
                 st.assume(self.spec_bool(a_, st))
                 self.assumptions_used.add('%s: assumed axiom: %s' % (c.func, a_))
+            for g, e in getattr(c, 'ghost_init', {}).items():
+                st.env[g] = self.spec(e, st)
             fr.old = (dict(st.env), {k: HObj(o.cls, dict(o.fields)) for k, o in st.heap.items()})
             for r in c.requires:
                 st.assume(self.spec_bool(r, st, None, fr.old))
@@ -1949,12 +1986,40 @@ class Engine:
                     extra['out'] = s.out
                     extra['result'] = s.out
                 env_now = dict(fr.old[0])
+                for g in getattr(c, 'ghost_init', {}):
+                    env_now[g] = s.env.get(g)
                 # parameters in postconditions denote entry values except mutable objects (same reference)
                 post = State()
                 post.env = env_now
                 post.env.update(extra)
                 post.heap = s.heap
                 post.pc = s.pc
+                for k_ in list(s.env):
+                    if k_.startswith('_psum'):
+                        post.env[k_] = s.env[k_]
+                if c.ghost_post:
+                    newg = {g: self.materialise(self.spec(e, post, None, fr.old), s, g) for g, e in c.ghost_post.items()}
+                    post.env.update(newg)
+                for h in c.exit_hints:
+                    # seed(t) for a fresh uninterpreted predicate `seed`: satisfiable by seed = true, so it adds no
+                    # logical content; it only puts the term t into the e-graph for quantifier instantiation
+                    hs = State()
+                    hs.env = dict(s.env)
+                    hs.env.update(extra)
+                    hs.heap = s.heap
+                    hs.pc = s.pc
+                    self.sinks.append([])
+                    try:
+                        t = self.spec(h, hs, None, fr.old)
+                    except Unsupported:
+                        t = None
+                    finally:
+                        self.sinks.pop()
+                    if is_z3(t):
+                        seed = z3.Function('seed_' + t.sort().name(), t.sort(), z3.BoolSort())
+                        s.assume(seed(t))
+                for li, lem in enumerate(c.exit_lemmas):
+                    self.prove_induction(s, post, lem, li, fnode, fr)
                 for i, e in enumerate(c.ensures):
                     self.oblige(s, 'post#%d' % i, self.spec_bool(e, post, None, fr.old), fnode, note=e)
                 for ecls, cond in c.raises.items():
@@ -1972,6 +2037,43 @@ class Engine:
         finally:
             self.sinks.pop()
             self.frames.pop()
+
+    def materialise(self, v, st, name='g'):
+        """Name a derived view: a fresh uninterpreted view constrained to be equal to v element-wise, so that
+        quantifier triggers can mention its elements."""
+        if not isinstance(v, View) or v.ekind is None:
+            return v
+        facts = []
+        nv = fresh(KView(v.ekind), uid(name), (), facts)
+        for f in facts:
+            st.assume(f)
+        st.assume(num_cmp('==', nv.length, v.length))
+        i = z3.Int(uid('mi'))
+        eq = simp(v_eq(nv.get(i), v.get(i)))
+        if eq is not True:
+            pat = nv.get(i)
+            body = z3.Implies(z3.And(i >= 0, i < to_int(nv.length)), to_bool_term(eq))
+            try:
+                st.assume(z3.ForAll([i], body, patterns=[pat]) if is_z3(pat) else z3.ForAll([i], body))
+            except z3.Z3Exception:
+                st.assume(z3.ForAll([i], body))
+        return nv
+
+    def prove_induction(self, s, post, lem, li, fnode, fr):
+        n = z3.Int(uid(lem.var))
+        lo = self.spec(lem.lo, post, None, fr.old)
+        hi = self.spec(lem.hi, post, None, fr.old)
+        base = self.spec_bool(lem.claim, post, {lem.var: lo}, fr.old)
+        self.oblige(s, 'lemma#%d.base' % li, b_implies(num_cmp('<=', lo, hi), base), fnode, note='%s at %s' % (lem.claim, lem.lo))
+        hyp = self.spec_bool(lem.claim, post, {lem.var: n}, fr.old)
+        nxt = self.spec_bool(lem.claim, post, {lem.var: n + 1}, fr.old)
+        s2 = s.copy()
+        s2.assume(z3.And(to_int(lo) <= n, n < to_int(hi)))
+        s2.assume(hyp)
+        self.oblige(s2, 'lemma#%d.step' % li, nxt, fnode, note='%s: n -> n+1' % lem.claim)
+        m = z3.Int(uid(lem.var))
+        allc = self.spec_bool(lem.claim, post, {lem.var: m}, fr.old)
+        s.assume(z3.ForAll([m], z3.Implies(z3.And(to_int(lo) <= m, m <= to_int(hi)), to_bool_term(allc))))
 
     def rec_to_obj(self, rec, st):
         fields = {}
@@ -2010,6 +2112,8 @@ class Engine:
         old_env, old_heap = fr.old
         mod_fields = set()
         for path in c.modifies:
+            if isinstance(path, tuple):
+                path = path[0]
             parts = path.split('.')
             tmp = State()
             tmp.env = old_env
